@@ -50,6 +50,7 @@ type xConf struct {
 	name  string
 	progs [][]xOp
 	plan  [][2]bool // per session: (reader ends although nobody closed, Listen returns an error)
+	max   int       // schedules to explore at most (0: the tier's default)
 }
 
 func (cf xConf) modelProgs() string {
@@ -382,7 +383,7 @@ func C17(c *core.Ctx) {
 		}
 		cf := xConf{name: "history " + nm, progs: [][]xOp{prog}, plan: plan}
 		// a single worker: the only scheduling freedom is between it and the background readers
-		xExplore(c, cf, c.N(4, 40), nil)
+		xExplore(c, cf, c.N(3, 40), nil)
 	}
 	c.Extra("exhaustive_history_length", maxLen)
 	// (b) concurrency: sends against Disconnect / Reconnect, readers ending with an error
@@ -395,9 +396,26 @@ func C17(c *core.Ctx) {
 		{name: "Connect || Connect || Send", progs: [][]xOp{{C1}, {C1}, {xSend(20, true)}}},
 		{name: "Disconnect || Disconnect || Send", progs: [][]xOp{{C1, D}, {D}, {xSend(20, true)}}},
 	}
+	// a failed encode between successful sends, several times over (scratch buffers the
+	// client may pool must not carry anything from the failed message into the next frame)
+	bigBad := func(n int) xOp {
+		return xOp{kind: "S", msg: &protocol.Message{Tag: "t", Timestamp: 1, Record: unencodableRecord(n, 0)}, enc: nil, wok: true}
+	}
+	for _, n := range []int{0, 100, 2100, 4096, 9000} {
+		prog := []xOp{C1}
+		for k := 0; k < 4; k++ {
+			prog = append(prog, bigBad(n), xSend(20+k, true), xBad(), xSend(3000+k, k%2 == 0), raw)
+		}
+		confs = append(confs, xConf{name: fmt.Sprintf("failed encode (%d bytes before the bad value) then sends, repeated", n), progs: [][]xOp{prog}, max: 2})
+	}
+	c17SelfClosed(c)
 	total, allEx := 0, true
 	for _, cf := range confs {
-		n, ex := xExplore(c, cf, c.N(120, 10000), nil)
+		max := c.N(70, 10000)
+		if cf.max > 0 {
+			max = cf.max
+		}
+		n, ex := xExplore(c, cf, max, nil)
 		total += n
 		allEx = allEx && ex
 		c.Sample(map[string]interface{}{"configuration": cf.name, "schedules": n, "exhaustive": ex})
@@ -417,4 +435,58 @@ func C17(c *core.Ctx) {
 	}
 	c.Extra("exhaustive", allEx)
 	c.Extra("schedules", total)
+}
+
+// c17SelfClosed: the session's connection closes by itself (reader error handled by the
+// default handler, or peer close); then Reconnect fails: no session may be left behind, and a
+// later Connect dials again.
+func c17SelfClosed(c *core.Ctx) {
+	for _, withErr := range []bool{true, false} {
+		s := sched.New()
+		s.Release()
+		f := &wsFactory{s: s, dialOK: map[string]bool{}, log: func(string) {}, wok: func() bool { return true }}
+		if withErr {
+			f.plan = [][2]bool{{false, true}}
+		}
+		dials := 0
+		cl := client.NewWS(client.WSConnectionOptions{Factory: f})
+		replay := map[string]interface{}{"scenario": "Connect; the connection closes by itself; Reconnect (dial fails); Connect", "reader_error": withErr}
+		if err := cl.Connect(); err != nil {
+			c.Violation("judge-go", "c17-selfclosed", "Connect failed: "+err.Error(), replay)
+			continue
+		}
+		dials++
+		f.mu.Lock()
+		conn := f.sessions[0]
+		f.mu.Unlock()
+		conn.SelfClose()
+		time.Sleep(2 * time.Millisecond)
+		f.mu.Lock()
+		f.dialOK[s.Name()] = false
+		f.mu.Unlock()
+		rerr := cl.Reconnect()
+		c.Eval()
+		c.Hist("self-closed connection, failed Reconnect")
+		if rerr == nil {
+			c.Violation("judge-go", "c17-selfclosed", "Reconnect returned nil although the dial failed", replay)
+		}
+		if ses := cl.Session(); ses != nil {
+			c.Violation("judge-go", "c17-failed-reconnect-session", "a failed Reconnect left a session behind (the old connection had closed by itself)", replay)
+		}
+		if err := cl.SendRaw([]byte{1}); err == nil {
+			c.Violation("judge-go", "c17-selfclosed", "SendRaw succeeded without a live session", replay)
+		}
+		f.mu.Lock()
+		f.dialOK[s.Name()] = true
+		f.mu.Unlock()
+		if err := cl.Connect(); err != nil {
+			c.Violation("judge-go", "c17-failed-reconnect-session", "Connect after a failed Reconnect: "+err.Error(), replay)
+		}
+		_ = cl.Disconnect()
+		f.mu.Lock()
+		for _, x := range f.sessions {
+			_ = x.Close()
+		}
+		f.mu.Unlock()
+	}
 }
